@@ -446,5 +446,7 @@ pub fn run_c20(p: &Params) -> Outcome {
     // (d) the races around the last owner (drop || upgrade, two last clones, into_shared || subscriber drop)
     // with a payload registered in a process-wide table, every order at the pause points
     out.merge(crate::runners_thr::run_c20_threads(p));
+    // (e) histories in which a user callback or a trait impl of the element type panics and is caught
+    out.merge(crate::runners_unwind::run_unwind(p, "C20"));
     out
 }
